@@ -8,6 +8,8 @@ import struct
 SINGLETONS = {type(None): "N", type(NotImplemented): "X", type(Ellipsis): "E"}
 
 
+_BIG = 10 ** 4000      # computed once: int -> text goes through str() below this bound
+
 def other_code(v):
     t = type(v)
     for k, base in enumerate((list, dict, set, bytearray, int, str, bytes, tuple, frozenset, float, complex)):
@@ -29,7 +31,7 @@ def _to(v, out):
     elif t is bool:
         out.append("T" if v else "F")
     elif t is int:
-        out.append("I%d" % v if abs(v) < 10 ** 4000 else "I" + _bigstr(v))
+        out.append("I%d" % v if abs(v) < _BIG else "I" + _bigstr(v))
     elif t is float:
         out.append("D" + struct.pack("!d", v).hex())
     elif t is complex:
@@ -142,7 +144,7 @@ def canon(v):
     if t is bool:
         return "T" if v else "F"
     if t is int:
-        return "I" + (str(v) if abs(v) < 10 ** 4000 else _bigstr(v))
+        return "I" + (str(v) if abs(v) < _BIG else _bigstr(v))
     if t is float:
         return "D" + struct.pack("!d", v).hex()
     if t is complex:
